@@ -183,6 +183,13 @@ def run(res, b, tier, seed):
         ids = identifiers(prog)
         if not ids:
             continue
+        # (c) a scope-consistent renaming that is not injective: locals / parameters of different functions get the
+        #     same names, globals defined after a function reuse its local names (all legal, meaning unchanged)
+        rp0 = gen_prog.reuse_names(rng, prog)
+        rsrc0 = gen_prog.pp_program(rp0)
+        if rsrc0 != src:
+            cases.append(pipeline.Case("p%d_reuse" % pi, {"main.tsh": rsrc0.encode()},
+                                       meta=dict(expected_out=out, expected_status=status, src=rsrc0, original=src, renaming="reuse of names across scopes", reserved=[])))
         for ri in range(nren):
             reserved = ri % 2 == 1
             pool = [n for n in (RESERVED_POOL if reserved else NEUTRAL_POOL) if n not in KEYWORDS]
@@ -215,7 +222,7 @@ def run(res, b, tier, seed):
         distinct_nontrivial=len({c.meta["src"] for c in cases}),
         rule="generated programs (functions, slices, strings) x injective renamings of all their variables, parameters and functions: (a) into neutral legal "
              "identifiers incl. names differing only in letter case, (b) one or two identifiers into the pool of names the bash back-end reserves for itself "
-             "or inherits from the shell (%d names); reference = behaviour of the original program; a transpile error is also acceptable; distinct = distinct "
+             "or inherits from the shell (%d names), (c) one scope-consistent non-injective renaming per program (locals of different functions share names); reference = behaviour of the original program; a transpile error is also acceptable; distinct = distinct "
              "renamed programs" % len(RESERVED_POOL),
         samples=[dict(renaming=cases[1].meta["renaming"], program=cases[1].meta["src"][:400])],
         correspondence=dict(stage="AST + bash script (whole model pipeline)", compared=len(cases), disagreements=len(dis)),
